@@ -1165,6 +1165,14 @@ def _unroll_literal_loops(mods: dict[str, Module], log: list[str]) -> None:
                     i = 0
                     while i < len(b):
                         st = b[i]
+                        # `{k1: v1, ...}.items()` of a literal dict is the display of its (key, value) pairs
+                        if isinstance(st, ast.For) and isinstance(st.iter, ast.Call) and isinstance(st.iter.func, ast.Attribute) and st.iter.func.attr in ("items", "values", "keys") \
+                                and not st.iter.args and not st.iter.keywords and isinstance(st.iter.func.value, ast.Dict) and st.iter.func.value.keys \
+                                and all(k is not None for k in st.iter.func.value.keys) and len(st.iter.func.value.keys) <= 24:
+                            d_ = st.iter.func.value
+                            kind_ = st.iter.func.attr
+                            elts_ = [ast.Tuple(elts=[k, v], ctx=ast.Load()) if kind_ == "items" else (k if kind_ == "keys" else v) for k, v in zip(d_.keys, d_.values)]
+                            st.iter = ast.copy_location(ast.Tuple(elts=elts_, ctx=ast.Load()), st.iter)
                         # `zip(<display>, <display>)` / `enumerate(<display>)` of literal displays of equal length are the display of their item tuples
                         if isinstance(st, ast.For) and isinstance(st.iter, ast.Call) and isinstance(st.iter.func, ast.Name) and not st.iter.keywords:
                             fnm, za = st.iter.func.id, st.iter.args
